@@ -213,7 +213,7 @@ def run(rep, tier="quick", replay=None, evidence_dir=None, collect_only=False):
                 work = [tt["discr"]]
                 seen_l = set()
                 steps = 0
-                while work and steps < 80:
+                while work and steps < 200:
                     steps += 1
                     o = work.pop()
                     if o.get("k") not in ("copy", "move"):
@@ -230,14 +230,15 @@ def run(rep, tier="quick", replay=None, evidence_dir=None, collect_only=False):
                             if nm and nm[0].endswith("::len") and payload["args"] and payload["args"][0].get("k") in ("copy", "move") and db.pldesc(payload["args"][0]["pl"]) in grown:
                                 ok = False
                                 why = "the loop's exit test at %s reads %s.len(), the collection the loop fills" % (db.loc(sbi), db.pldesc(payload["args"][0]["pl"]))
-                            if nm and (nm[0].endswith("Try::branch") or nm[0].endswith("Iterator::next")):
-                                continue
                             work.extend(payload["args"])
                         elif kind == "assign":
                             rv = payload
                             for key in ("o", "a", "b"):
                                 if isinstance(rv.get(key), dict):
                                     work.append(rv[key])
+                            for o_ in rv.get("ops", []) or []:
+                                if isinstance(o_, dict):
+                                    work.append(o_)
                             if rv.get("pl"):
                                 work.append({"k": "copy", "pl": rv["pl"]})
         rep.ob("C02.R2", "decode %s: the item loop of a block is bounded by that block's count, not by the total collected so far" % shp, ok, why, db.loc())
